@@ -147,13 +147,13 @@ Qed.
 (* norm_max rounds nothing *)
 Lemma mnorm_max_exact_lemma (m : matrix ARf) : wf m ->
   exists N, mnorm_max (S:=SARf) m = Ok N /\ mnorm_max (S:=SAR) (rm m) = Ok N.
-Proof.
+Proof using.
   intros Hw.
   destruct (norms_spec_lemma (SS:=SARf) ARf_OrdLaws m Hw) as (_ & _ & (Nf & Ef & Hub & Hmem) & _).
   assert (Hw' : wf (rm m)) by exact Hw.
   destruct (nmax_msp _ _ _ (rm m) (msp_self _ Hw')) as (N & E & HN).
   exists Nf. split; [exact Ef|]. rewrite E. apply f_equal.
-  apply (ismax_eq _ (Pmax (rows m) (cols m) (entry (A:=AR) (rm m))) _ _ HN); [|apply Pmax_nonneg|tauto].
+  apply (ismax_eq _ (Pmax (rows m) (cols m) (entry (A:=AR) (rm m))) _ _ HN); [|apply Pmax_nonneg|intros x; split; intros Hx; exact Hx].
   split.
   - intros x (i & j & Hi & Hj & ->). apply ltbf_false. exact (Hub i j Hi Hj).
   - destruct Hmem as [->|(i & j & Hi & Hj & ->)]; [now left|right; exists i, j; auto].
